@@ -481,8 +481,17 @@ func evalLazy(c *lazyCase, st *stats) *harness.Fail {
 	if fN.IsFragmented() != fL.IsFragmented() {
 		return harness.Failf("C08|File.IsFragmented|differs between the modes", "in-memory %v, lazy %v", fN.IsFragmented(), fL.IsFragmented())
 	}
-	if fL.Size() != uint64(len(file)) {
-		return harness.Failf("C08|File.Size|lazy: differs from the file size", "%d, file %d", fL.Size(), len(file))
+	// File.Size follows the encode mode (segment mode leaves out top-level boxes that belong to no segment): the
+	// two modes agree, and the box-tree view is the size of the file
+	if fL.Size() != fN.Size() {
+		return harness.Failf("C08|File.Size|differs between the modes", "in-memory %d, lazy %d", fN.Size(), fL.Size())
+	}
+	modeN, modeL := fN.FragEncMode, fL.FragEncMode
+	fN.FragEncMode, fL.FragEncMode = mp4.EncModeBoxTree, mp4.EncModeBoxTree
+	sizeN, sizeL := fN.Size(), fL.Size()
+	fN.FragEncMode, fL.FragEncMode = modeN, modeL
+	if sizeL != uint64(len(file)) {
+		return harness.Failf("C08|File.Size|lazy: differs from the file size", "%d (in-memory %d), file %d", sizeL, sizeN, len(file))
 	}
 	if (fN.Mdat == nil) != (fL.Mdat == nil) || (fN.Moov == nil) != (fL.Moov == nil) || (fN.Init == nil) != (fL.Init == nil) || len(fN.Segments) != len(fL.Segments) || len(fN.Sidxs) != len(fL.Sidxs) {
 		return harness.Failf("C08|DecodeFile|file structure differs between the modes", "Mdat %v/%v Moov %v/%v Init %v/%v segments %d/%d sidxs %d/%d",
